@@ -48,6 +48,7 @@
        about the caller's assets, not about the script's execution, and it needs no [isel]).
      interp_is_recursive: work-list evaluator = recursive evaluator, every ms and stack, no INoFuel.
    Each clause is additionally checked per run by the oracle (tools/props/c13.py). *)
+From Verif Require Import Spend InterpTxdataModel InterpTxdataProofs.
 From Verif Require Import Exec ExecTrace Ser Ast Types TypeCheck SatSpec TheoremA DenotSpec InterpModel InterpRefine InterpSound InterpWitness InterpComplete InterpDenot InterpMain InterpPolicy InterpGenuine.
 Local Open Scope N_scope.
 
@@ -250,3 +251,56 @@ Example interp_iff_nonvacuous :
     items_small items /\ accepts e (enc ke m) (rev items) = true /\
     interp e ke kp m (astack_of_items items) = IAccept [CsPk [2; 0] toy_sig; CsPk [2; 1] toy_sig].
 Proof. exact iff_nonvacuous. Qed.
+
+(* ------------------------------------------------------------------ from_txdata (src/interpreter/inner.rs)
+   Model: Ms/InterpTxdataModel.v ([from_txdata]); proofs: Proofs/InterpTxdataProofs.v.
+   FULL STATEMENTS (all output types: bare, pk, pkh, wpkh, wsh, sh, sh-wpkh, sh-wsh, tr key / script path):
+     from_txdata_sound: model = Ok(kind, script, stack, code) -> Spend.v's verify_spend on the same
+       spk / scriptSig / witness is the execution of exactly that script (resp. CHECKSIG on that key) on
+       exactly that stack;  from_txdata_complete_std: every spend verify_spend accepts, whose scriptSig holds
+       only pushes / OP_1 and whose script the library decodes, is not refused;  composition with the
+       evaluator's soundness.
+   PROVED here: the three statements for P2WSH (named _partial).  MISSING: the same case analysis for
+   sh, sh-wsh, bare, tr and the key-only kinds (the model covers them and the tie checks them on every
+   run; only the Coq theorems are restricted to P2WSH). *)
+Theorem from_txdata_sound_partial :
+  forall e fe co spk ssig wit sb st code,
+    from_txdata e fe spk ssig wit = FOk (InScript sb StWsh) st code ->
+    code = Some sb /\ verify_spend e co spk ssig wit = wsh_body e sb (map conc st).
+Proof. exact from_txdata_sound_wsh. Qed.
+Print Assumptions from_txdata_sound_partial.
+
+Theorem from_txdata_complete_std_partial :
+  forall e fe co spk ssig wit prog,
+    spk_is_p2wsh spk = Some prog ->
+    verify_spend e co spk ssig wit = true ->
+    (forall sb, hd_error (rev wit) = Some sb -> f_dec fe DSegv0 sb = true) ->
+    exists sb st, from_txdata e fe spk ssig wit = FOk (InScript sb StWsh) st (Some sb) /\ rev wit = sb :: map conc st.
+Proof. exact from_txdata_complete_wsh. Qed.
+Print Assumptions from_txdata_complete_std_partial.
+
+(* composition: [ev_accepts] stands for "the evaluator accepts on the stack it was handed"; the hypothesis
+   [ev_accepts -> accepts ..] is the conclusion of interp_sound_partial / interp_iff for s = enc ke m and
+   st = astack_of_items items (map conc st = rev items: conc_wit_stack) *)
+Theorem from_txdata_interp_sound_partial :
+  forall e fe co spk ssig wit sb st code (s : script) (ev_accepts : Prop),
+    from_txdata e fe spk ssig wit = FOk (InScript sb StWsh) st code ->
+    parse_script sb = Some s ->
+    (ev_accepts -> accepts (with_sv e SvWitnessV0) s (map conc st) = true) ->
+    N.leb (blen sb) 3600 = true -> N.leb (N.of_nat (length st)) 100 = true ->
+    forallb (fun it => N.leb (blen it) 80) (map conc st) = true -> N.leb (count_nonpush_ops s) 201 = true ->
+    ev_accepts ->
+    verify_spend e co spk ssig wit = true.
+Proof. exact from_txdata_interp_wsh. Qed.
+Print Assumptions from_txdata_interp_sound_partial.
+
+Example from_txdata_nonvacuous :
+  from_txdata ftx_toy_env ftx_toy_fenv ftx_toy_spk [] [[5; 5]; [81]]
+  = FOk (InScript [81] StWsh) [EPush [5; 5]] (Some [81]).
+Proof. exact ftx_nonvacuous. Qed.
+
+(* completeness is not over-claimed: OP_2 in a scriptSig is push-only for the specification, ExpectedPush here *)
+Example from_txdata_opn_expected_push :
+  pushonly_stack [INum 2] [] = Some [[2]] /\ parse_script [82] = Some [INum 2] /\
+  from_txdata ftx_toy_env ftx_toy_fenv (169 :: 20 :: repeat 9 20 ++ [135]) [82] [] = FErr FExpectedPush.
+Proof. exact ftx_opn_expected_push. Qed.
